@@ -164,6 +164,7 @@ func (c *Conn) Close() error {
 	c.rd.mu.Unlock()
 	c.wr.mu.Lock()
 	c.wr.wclosed = true
+	c.wr.readerWaiting = false // the peer has an event (EOF) to process: it is not idle
 	c.wr.cond.Broadcast()
 	c.wr.mu.Unlock()
 	c.doneMu.Lock()
@@ -240,6 +241,9 @@ func (c *Conn) MarkDone() {
 	c.rd.mu.Lock()
 	c.rd.cond.Broadcast()
 	c.rd.mu.Unlock()
+	c.wr.mu.Lock()
+	c.wr.cond.Broadcast()
+	c.wr.mu.Unlock()
 }
 
 // PeerGone reports whether the peer closed its end or its goroutine returned.
@@ -272,6 +276,34 @@ func (c *Conn) WaitPeerIdle(timeout time.Duration) bool {
 			return true
 		}
 		if c.PeerGone() {
+			return true
+		}
+		if !time.Now().Before(deadline) {
+			return false
+		}
+		q.cond.Wait()
+	}
+}
+
+// WaitPeerDone blocks until the goroutine serving the peer end has returned
+// (MarkDone) — i.e. lal's accept handler has finished its teardown.
+func (c *Conn) WaitPeerDone(timeout time.Duration) bool {
+	q := c.wr
+	deadline := time.Now().Add(timeout)
+	t := time.AfterFunc(timeout, func() {
+		q.mu.Lock()
+		q.cond.Broadcast()
+		q.mu.Unlock()
+	})
+	defer t.Stop()
+	q.mu.Lock()
+	defer q.mu.Unlock()
+	for {
+		p := c.peerConn
+		p.doneMu.Lock()
+		d := p.done
+		p.doneMu.Unlock()
+		if d {
 			return true
 		}
 		if !time.Now().Before(deadline) {
